@@ -126,12 +126,12 @@ Lemma segment_line_ok line more col minCol pending b W need rest col2 :
   | String c W' => is_fold_char c = true /\
                    match W' with
                    | EmptyString => c = newline
-                   | String n' r' => lay_ok more minCol minCol (Some c) n' r' = true
+                   | String n' r' => lay_ok false more minCol minCol (Some c) n' r' = true
                    end
   end ->
-  lay_ok (line :: more) col minCol pending need rest = true.
+  lay_ok false (line :: more) col minCol pending need rest = true.
 Proof.
-  intros Hne E Hadj Hd HW. cbn [lay_ok].
+  intros Hne E Hadj Hd HW. cbn [lay_ok andb].
   assert (Hl : slen line =? 0 = false).
   { apply Z.eqb_neq. intros H0. assert (line = EmptyString) by (destruct line; [reflexivity|rewrite slen_String in H0; pose proof (slen_nonneg line); lia]).
     subst line. destruct (Z.to_nat (col2 - 1)); cbn in Hd; congruence. }
@@ -161,13 +161,13 @@ Qed.
 Lemma tail_ok : forall ls minCol col need rest,
   forallb no_newline_b ls = true -> 1 <= minCol -> 1 <= col ->
   all_newlines (String need rest) = true ->
-  lay_ok ls col minCol (Some newline) need rest = true.
+  lay_ok false ls col minCol (Some newline) need rest = true.
 Proof.
   induction ls as [|line more IH]; intros minCol col need rest Hls Hm Hc Hall.
-  - cbn [lay_ok]. rewrite Ascii.eqb_refl. cbn [andb]. exact Hall.
+  - cbn [lay_ok andb]. rewrite Ascii.eqb_refl. cbn [andb]. exact Hall.
   - cbn [forallb] in Hls. apply andb_true_iff in Hls. destruct Hls as [Hl Hls].
     cbn [all_newlines] in Hall. apply andb_true_iff in Hall. destruct Hall as [Hn Hr].
-    cbn [lay_ok].
+    cbn [lay_ok andb].
     assert (Hres : (if slen line =? 0 then Some (false, Some (need, rest))
                     else match adjust_col line col need rest with
                          | None => None
@@ -202,7 +202,7 @@ Lemma block_items_ok literal indent minCol after tail : forall items c W',
   is_fold_char c = true /\
   match W' with
   | EmptyString => c = newline
-  | String n' r' => lay_ok (map (item_line indent) items ++ after) minCol minCol (Some c) n' r' = true
+  | String n' r' => lay_ok false (map (item_line indent) items ++ after) minCol minCol (Some c) n' r' = true
   end.
 Proof.
   induction items as [|it items IH]; intros c W' Hi Hm Haf Hok E.
@@ -232,7 +232,7 @@ Proof.
       destruct V as [|c2 W2]; [cbn in Ev; discriminate|].
       destruct (IH c2 W2 Hi Hm Haf Hr eq_refl) as [Hf2 Hrest].
       assert (Ec2 : c2 = newline) by (cbn in Ev; inversion Ev; reflexivity). subst c2.
-      cbn [lay_ok].
+      cbn [lay_ok andb].
       assert (Hres : (if slen (spaces n) =? 0 then Some (false, Some (newline, W2))
                       else match adjust_col (spaces n) minCol newline W2 with
                            | None => None
@@ -263,7 +263,7 @@ Proof.
   rename H into Hnn, H0 into Haf, H1 into Hitems, H2 into Hm, H3 into Hi, H4 into Hns.
   apply Z.leb_le in Hm. apply Z.leb_le in Hi.
   pose proof (has_nonspace_nonempty _ Hns) as Hne.
-  unfold node_ok, bl_node. cbn [sn_value sn_line sn_col sn_block sn_anchor].
+  unfold node_ok, bl_node. cbn [sn_value sn_line sn_col sn_block sn_anchor sn_dq].
   unfold bl_value in *. destruct (bl_first b) as [|f fr] eqn:Ef; [contradiction|]. cbn [append] in *.
   rewrite Hnn. cbn [andb].
   replace (0 <=? Z.of_nat (List.length (bl_pre b)) + 1) with true by (symmetry; apply Z.leb_le; lia).
@@ -292,7 +292,7 @@ Lemma pm_more_ok minCol after : forall more c W',
   is_fold_char c = true /\
   match W' with
   | EmptyString => c = newline
-  | String n' r' => lay_ok (map (fun ks => (spaces (fst ks) ++ snd ks)%string) more ++ after) minCol minCol (Some c) n' r' = true
+  | String n' r' => lay_ok false (map (fun ks => (spaces (fst ks) ++ snd ks)%string) more ++ after) minCol minCol (Some c) n' r' = true
   end.
 Proof.
   induction more as [|[k seg] more IH]; intros c W' Hm Hok E; [discriminate|].
@@ -311,7 +311,7 @@ Qed.
 
 Lemma first_col_plain pre rest v l :
   ascii_only pre = true ->
-  first_col (pre ++ rest) (mksn v l (slen pre + 1) false EmptyString) = slen pre + 1.
+  first_col (pre ++ rest) (mksn v l (slen pre + 1) false EmptyString false) = slen pre + 1.
 Proof. intros Ha. unfold first_col. cbn [sn_col sn_anchor]. apply byte_column_ascii. exact Ha. Qed.
 
 Theorem plain_ml_node_ok : forall p minCol,
@@ -322,7 +322,7 @@ Proof.
   rename H into Hnn, H0 into Hmore, H1 into Hm, H2 into Hsp, H3 into Hns, H4 into Hasc.
   apply negb_true_iff in Hsp. apply Z.leb_le in Hm.
   pose proof (has_nonspace_nonempty _ Hns) as Hne.
-  unfold node_ok, pm_node, mksn0. cbn [sn_value sn_line sn_col sn_block sn_anchor].
+  unfold node_ok, pm_node, mksn0. cbn [sn_value sn_line sn_col sn_block sn_anchor sn_dq].
   unfold pm_value in *.
   destruct (pm_first p) as [|f fr] eqn:Ef; [contradiction|]. cbn [append] in *.
   rewrite Hnn. cbn [andb].
